@@ -124,6 +124,7 @@ func (x *exec) appendOp(st *State, s, t Value) Value {
 	caseA := e.ctx.Name("apA", smt.Eq(n, zero64))
 	fits := e.ctx.Name("apB", smt.BVCmp("bvsle", newLen, sCap))
 	keep := e.ctx.Name("apKeep", smt.Or(caseA, fits))
+	x.lastAppendKeep = &keep
 	r := e.newRef(st, "grown")
 	capC := e.ctx.Fresh("apcap", bv64)
 	st.assume(smt.And(smt.BVCmp("bvsle", newLen, capC), smt.BVCmp("bvsle", capC, smt.BVLit(1<<56, 64))))
